@@ -1,19 +1,41 @@
 package pstore
 
 import (
+	"sync/atomic"
+	"syscall"
 	"time"
 
 	"verif/harness/ev"
 )
 
-// hangLimit bounds one case. Cases of this package take micro- to milliseconds; a case that is
-// still running after this long is a livelock in the code under test (e.g. a corrupted skip
-// list), which the driver would otherwise only report as an inconclusive timeout.
-const hangLimit = 15 * time.Second
+// spinLimit: a case of this package needs micro- to milliseconds of CPU. If the process burns
+// this much USER cpu time while one case is running, the code under test is spinning (e.g. a
+// corrupted skip list), which the driver would otherwise only report as an inconclusive timeout.
+// The criterion is CPU time, not wall-clock time: on an overloaded machine a starved or
+// page-faulting case can stall for a long time without consuming user CPU, and that must never be
+// reported as a violation (a total stall ends in the driver's timeout = inconclusive).
+const spinLimit = 20 * time.Second
+
+// livelockSeen: once a spinning case has been detected its goroutine keeps burning CPU, so CPU
+// accounting of later cases in this process is meaningless; they are skipped (rapid then keeps
+// the detected case as the reported one; `./check <ID> replay` re-detects it in a fresh process).
+var livelockSeen atomic.Bool
+
+func userCPU() time.Duration {
+	var ru syscall.Rusage
+	if err := syscall.Getrusage(syscall.RUSAGE_SELF, &ru); err != nil {
+		return 0
+	}
+	return time.Duration(ru.Utime.Sec)*time.Second + time.Duration(ru.Utime.Usec)*time.Microsecond
+}
 
 // guarded runs the body of a case in its own goroutine so that a livelock becomes an oracle
 // failure. Oracle failures and panics raised inside f are re-raised on the driver goroutine.
 func guarded(ctx *ev.Ctx, f func()) {
+	if livelockSeen.Load() {
+		ctx.Label("skipped-after-livelock")
+		return
+	}
 	type res struct {
 		sentinel interface{}
 		stray    string
@@ -29,18 +51,31 @@ func guarded(ctx *ev.Ctx, f func()) {
 		}()
 		r.stray = ev.Catch(f)
 	}()
-	tm := time.NewTimer(hangLimit)
+	tm := time.NewTimer(2 * time.Second)
 	defer tm.Stop()
-	select {
-	case r := <-done:
-		if r.sentinel != nil {
-			panic(r.sentinel)
+	var cpu0 time.Duration
+	started := false
+	for {
+		select {
+		case r := <-done:
+			if r.sentinel != nil {
+				panic(r.sentinel)
+			}
+			if r.stray != "" {
+				ctx.Failf("panic: %s", r.stray)
+			}
+			return
+		case <-tm.C:
+			// slow path, only reached when a case takes longer than 2 s of wall-clock time
+			if !started {
+				started = true
+				cpu0 = userCPU()
+			} else if used := userCPU() - cpu0; used >= spinLimit {
+				livelockSeen.Store(true)
+				ctx.Failf("case is still running after consuming %s of user CPU time: livelock in the code under test", used.Round(time.Second))
+			}
+			tm.Reset(2 * time.Second)
 		}
-		if r.stray != "" {
-			ctx.Failf("panic: %s", r.stray)
-		}
-	case <-tm.C:
-		ctx.Failf("case did not finish within %s: livelock in the code under test", hangLimit)
 	}
 }
 
